@@ -511,9 +511,18 @@ class World:
             if (t._scale < 0).any():
                 self.probe("negative_scale_tensor")
 
-    def put(self, slot, t, origin):
+    def put(self, slot, t, origin, src_slot=None, src_obj=None):
+        """froot: which tensor of the *float* program this slot is a view of (views, detach and ops that
+        return their argument inherit it; everything else is a new float tensor)."""
+        froot = self.__dict__.setdefault("froot", {})
+        if src_slot is not None and (origin in VIEW_OPS or origin == "detach" or t is src_obj) and src_slot in froot:
+            root = froot[src_slot]
+        else:
+            self.nroot_f = self.__dict__.get("nroot_f", 0) + 1
+            root = self.nroot_f
         self.pool[slot] = t
         self.origin[slot] = origin
+        froot[slot] = root
 
     def op_apply(self, op, i):
         fn = op["op"]
@@ -546,6 +555,7 @@ class World:
                 return "float_invalid"
         self.step_probes(fn, op, xs, src)
         snap = self.snapshot(fn, xs) if self.prop == "C06" else None
+        alias_exp = self.alias_expectations(fn, xs, fx, src) if self.prop == "C05" else None
         # ---- the quantized call, possibly with a fault armed
         fd = op.get("fault")
         inj = DeepAtenRaise(fd["k"]) if fd else contextlib.nullcontext()
@@ -587,6 +597,8 @@ class World:
             return outcome
         G = as_list(got)
         self.log.add("out", [R.tensor_digest(g) if isinstance(g, torch.Tensor) else repr(g) for g in G])
+        if alias_exp:
+            self.judge_aliases(fn, op, xs, alias_exp, i)
         if qany and self.prop == "C05":
             self.res["judged"] += 1
             self.judge_values(fn, op, cls, xs, fx, aux, as_list(exp), G, i)
@@ -595,7 +607,7 @@ class World:
         fresh = set()
         for slot, g in zip(dst, G):
             if isinstance(g, torch.Tensor) and (R.is_q(g) or g.dtype.is_floating_point) and 0 < g.numel() <= MAX_NUMEL and slot < POOL:
-                self.put(slot, g, fn)
+                self.put(slot, g, fn, src[0] if src else None, xs[0] if xs else None)
                 fresh.add(slot)
                 if fam == "requant":
                     self.code_probes(g)
@@ -603,6 +615,63 @@ class World:
             self.judge_transition(fn, op, snap, G, i)
         self.check_pool(fn, i, fresh, False)
         return "ok:" + ",".join(opclass(g).split("/")[0] for g in G[:3])
+
+    def alias_expectations(self, fn, xs, fx, src):
+        """What an in-place `copy_` into a quantized tensor does to the *other* pooled tensors that share its
+        payload memory, against the float program: a view of the destination (same float tensor) follows it - judged
+        when all its elements lie inside the destination (a partial overlap is a different matter: the quantized
+        copy_ replaces the one scale the whole base shares); a tensor that is a *different* tensor in the float
+        program (the result of a scalar mul/div shares its operand's payload) must not change at all.
+        Returns [(slot, tensor, expected float64 values, kind)] computed before the call."""
+        if fn != "copy_" or not (is_qbytes(xs[0]) and xs[0].axis is None and is_qbytes(xs[1]) and xs[1].axis is None and xs[0].qtype == xs[1].qtype):
+            return None
+        D = xs[0]
+        froot = self.__dict__.get("froot", {})
+        droot = froot.get(src[0])
+        try:
+            dd = D._data
+            st = dd.untyped_storage()
+            n = st.nbytes() // dd.element_size()
+            if n > 1 << 16 or tuple(dd.shape) != tuple(D.shape) or not bool(torch.isfinite(fx[1].to(torch.float64)).all()):
+                return None
+            out = []
+            for slot, V in self.pool.items():
+                if V is D or slot == src[0] or not (is_qbytes(V) and V.axis is None and V.dtype == D.dtype):
+                    continue
+                vd = V._data
+                if vd.untyped_storage().data_ptr() != st.data_ptr() or tuple(vd.shape) != tuple(V.shape):
+                    continue
+                if froot.get(slot) is not None and froot.get(slot) == droot:
+                    if V.qtype != D.qtype:
+                        continue
+                    Sf = torch.full((n,), float("nan"), dtype=torch.float64)
+                    FD = torch.as_strided(Sf, tuple(dd.shape), dd.stride(), dd.storage_offset())
+                    FD.copy_(fx[1].to(torch.float64))
+                    FV = torch.as_strided(Sf, tuple(vd.shape), vd.stride(), vd.storage_offset())
+                    if bool(torch.isnan(FV).any()):
+                        continue
+                    out.append((slot, V, FV.clone(), "view"))
+                else:
+                    out.append((slot, V, V.dequantize().to(torch.float64).clone(), "independent"))
+            return out
+        except Exception:
+            return None
+
+    def judge_aliases(self, fn, op, xs, alias_exp, i):
+        for slot, V, want, kind in alias_exp:
+            if kind == "view" and xs[0].dtype != xs[1].dtype:
+                continue  # the copy casts the scale: the exact class does not apply
+            try:
+                got = V.dequantize().to(torch.float64)
+            except Exception:
+                continue
+            self.res["judged"] += 1
+            self.probe("view_followed_through_inplace_copy" if kind == "view" else "independent_tensor_sharing_payload_watched")
+            bad = ~((got == want) | (torch.isnan(got) & torch.isnan(want)))
+            if bool(bad.any()):
+                k = int(torch.nonzero(bad.reshape(-1))[0])
+                cause = "view_does_not_follow_its_base" if kind == "view" else "independent_result_changed_by_inplace_copy"
+                self.violate("C05", "alias", fn, {"clause": "value", "cause": cause, "made_by": str(self.origin.get(slot)), "operands": opclass(V)}, f"slot {slot} (made by {self.origin.get(slot)}, {kind} in the float program) after copy_ into slot sharing its payload: {int(bad.sum())}/{bad.numel()} elements differ from the float program; first at flat {k}: got {got.reshape(-1)[k].item()!r}, float program {want.reshape(-1)[k].item()!r}", i)
 
     def step_probes(self, fn, op, xs, src):
         x = xs[0]
